@@ -10,6 +10,9 @@ GROUPS.append(G("book_BookKeeping", "harness/C19/h_asmsub.c", "h_BookKeeping", e
                 dfcc=False, object_bits=12, functions=["BookKeeping", "ProgCounter"]))
 GROUPS.append(G("line_GenerateProcessor", "harness/C20/h_as_include.c", "h_GenerateProcessor", enforce=[], link=["asmdef.c", "strcomp.c"], stubs=["stubs/gerr.c"], unwind=8, timeout=600, dfcc=False,
                 object_bits=12, defs=["-DSTRINGSIZE=64"], functions=["GenerateProcessor"], note="the line number a MAP entry / listing line of a macro body carries is StartLine (+ body line): see C20"))
+GROUPS.append(G("lst_MakeList", "harness/C19/h_asmlist.c", "h_MakeList", enforce=[], link=[], stubs=["stubs/gerr.c"], unwind=15, unwindset=["MakeList.0:8", "MakeList.1:14"], flags=["--slice-formula"], timeout=900, dfcc=False, drop_unused=True,
+                object_bits=12, defs=["-DSTRINGSIZE=64"], functions=["MakeList"],
+                bounded="lines of 0..12 code bytes; every (granularity, listing granularity) pair set up by the code generators; column widths of any radix"))
 TRUSTED_BASE = ["GetFileNum / AddAddressRange logging stubs", "stubs of h_as_writecode.c"]
 ASSUMPTIONS = []
 NOT_COVERED = ["MakeList (listing address column and word dump)", "PrintSymbolList / PrintDebSymbols / CodeSHARED (symbol values in listing, MAP and share file)", "BookKeeping (asmsub.c) argument passing", "Atmel/NoICE debug formats"]
